@@ -421,3 +421,34 @@ def _seeds():
 
 
 _seeds()
+
+CLIM = "cli/src/main.rs"
+benign("c19-bufwriter-flushed", "C19", CLIM,
+       "    ruzstd::encoding::compress(encoder_input, &output, compression_level);\n",
+       "    let mut buffered_output = std::io::BufWriter::new(&output);\n"
+       "    ruzstd::encoding::compress(encoder_input, &mut buffered_output, compression_level);\n"
+       "    std::io::Write::flush(&mut buffered_output)?;\n    drop(buffered_output);\n")
+mutant("c19-bufwriter-flush-ignored", "C19", "C19.prov.progress", CLIM,
+       "    ruzstd::encoding::compress(encoder_input, &output, compression_level);\n",
+       "    let mut buffered_output = std::io::BufWriter::new(&output);\n"
+       "    ruzstd::encoding::compress(encoder_input, &mut buffered_output, compression_level);\n"
+       "    let _ = std::io::Write::flush(&mut buffered_output);\n    drop(buffered_output);\n")
+
+# ---- C18: no_std I/O contract ---------------------------------------------------------------
+IONS = "ruzstd/src/io_nostd.rs"
+mutant("c18-take-counts-requested", "C18", "C18.contract.io", IONS, "        self.limit -= bytes as u64;\n        Ok(bytes)", "        self.limit -= at_most as u64;\n        Ok(bytes)")
+mutant("c18-take-ignores-limit", "C18", "C18.contract.io", IONS, "let bytes = self.inner.read(&mut buf[..at_most])?;", "let bytes = self.inner.read(buf)?;")
+mutant("c18-read-exact-no-eof", "C18", "C18.contract.io", IONS,
+       "        if !buf.is_empty() {\n            Err(Error::from(ErrorKind::UnexpectedEof))\n        } else {\n            Ok(())\n        }", "        Ok(())")
+mutant("c18-read-exact-advance-one", "C18", "C18.contract.io", IONS, "buf = &mut tmp[n..];", "buf = &mut tmp[1..];")
+mutant("c18-write-all-zero-ok", "C18", "C18.contract.io", IONS,
+       "                Ok(0) => {\n                    return Err(Error::from(ErrorKind::WriteAllEof));\n                }", "                Ok(0) => {\n                    return Ok(());\n                }")
+mutant("c18-write-all-retries-all-errors", "C18", "C18.contract.io", IONS, "Err(ref e) if e.is_interrupted() => {}", "Err(ref e) if e.is_interrupted() || true => {}")
+mutant("c18-slice-read-no-advance", "C18", "C18.contract.io", IONS, "        *self = rest;\n        Ok(size)", "        let _ = rest;\n        Ok(size)")
+mutant("c18-vec-write-short-count", "C18", "C18.contract.io", IONS, "        self.extend_from_slice(data);\n        Ok(data.len())", "        self.extend_from_slice(data);\n        Ok(data.len().min(4096))")
+benign("c18-slice-read-single-copy", "C18", IONS,
+       "        if size == 1 {\n            buf[0] = to_copy[0];\n        } else {\n            buf[..size].copy_from_slice(to_copy);\n        }",
+       "        buf[..size].copy_from_slice(to_copy);")
+benign("c18-take-min-as-u64", "C18", IONS, "let at_most = (self.limit as usize).min(buf.len());", "let at_most = self.limit.min(buf.len() as u64) as usize;")
+rename("rn-c18-take-locals", "C18", IONS, "at_most", "cap")
+rename("rn-c18-bytes", "C18", IONS, "bytes", "got")
